@@ -350,14 +350,10 @@ func (e *env) probe(name string, fn reflect.Value, recv *reflect.Value) {
 func run(c *core.Ctx) {
 	surf := loadSurface()
 	e := &env{c: c, surf: surf, safe: map[reflect.Type]string{}}
-	root := os.Getenv("VERIF_ROOT")
-	if root == "" {
-		root = "/verif"
-	}
-	e.fsroot = filepath.Join(root, ".run", "C19", "fsroot")
+	e.fsroot = filepath.Join(core.RunDir(), "fsroot")
 	os.MkdirAll(e.fsroot, 0o755)
 	os.WriteFile(filepath.Join(e.fsroot, "a.tmpl"), []byte(`A{{define "inside"}}in{{end}}`), 0o644)
-	canary := filepath.Join(root, ".run", "C19", "canary.tmpl")
+	canary := filepath.Join(core.RunDir(), "canary.tmpl")
 	os.WriteFile(canary, []byte(`CANARY{{define "canary"}}leak{{end}}`), 0o644)
 
 	for _, n := range surf.Safe {
